@@ -45,6 +45,11 @@ pub struct MonState {
     pub thread_first:    Vec<Option<usize>>,
     pub thread_acc:      Vec<usize>,
     pub max_gas_accounted: usize,
+    pub cost_at:         Vec<usize>,
+    pub thread_opgas:    Vec<usize>,
+    pub thread_pending:  Vec<usize>,
+    pub max_opgas_before: usize,
+    pub max_opgas_at:    u32,
     pub stop_site:       Option<&'static str>,
     pub stop_instance_alive: bool,
     pub polls_after_stop_same_instance: u64,
@@ -90,6 +95,11 @@ impl MonState {
             thread_first: vec![None],
             thread_acc: vec![0],
             max_gas_accounted: 0,
+            cost_at: Vec::new(),
+            thread_opgas: vec![0],
+            thread_pending: vec![0],
+            max_opgas_before: 0,
+            max_opgas_at: 0,
             stop_site: None,
             stop_instance_alive: false,
             polls_after_stop_same_instance: 0,
@@ -184,6 +194,8 @@ impl MonState {
             "polls_after_stop_same_instance": self.polls_after_stop_same_instance,
             "stop_site": self.stop_site,
             "max_gas_accounted": self.max_gas_accounted,
+            "max_opgas_before": self.max_opgas_before,
+            "max_opgas_at": self.max_opgas_at,
             "retire_gas": self.retire_gas.iter().map(|(ip, g)| json!([ip, g])).collect::<Vec<_>>(),
             "round_count": self.round_count,
             "rounds": self.rounds.iter().map(|(t, p)| json!([t, p])).collect::<Vec<_>>(),
@@ -227,10 +239,26 @@ impl Monitor for DriverMonitor {
                         s.max_gas_accounted = acc;
                     }
                 }
+                // opcode-level accounting: the declared minimum cost of every instruction this path has executed
+                // successfully before this one
+                if ti < s.thread_opgas.len() {
+                    let done = s.thread_opgas[ti].saturating_add(s.thread_pending[ti]);
+                    s.thread_opgas[ti] = done;
+                    s.thread_pending[ti] = s.cost_at.get(ip as usize).copied().unwrap_or(0);
+                    if done > s.max_opgas_before {
+                        s.max_opgas_before = done;
+                        s.max_opgas_at = ip;
+                    }
+                }
                 let t = s.thread_now;
                 s.tr(|| format!("S{t}:{ip}:{gas}:{visits}"));
             }
             Event::OpError { ip, error, recorded } => {
+                // a failed instruction is not charged (and ends its thread)
+                let ti = s.thread_now as usize;
+                if ti < s.thread_pending.len() {
+                    s.thread_pending[ti] = 0;
+                }
                 s.tr(|| format!("E{ip}:{recorded}:{error}"));
                 if s.op_errors.len() < 10_000 {
                     s.op_errors.push((ip, error, recorded));
@@ -277,6 +305,10 @@ impl Monitor for DriverMonitor {
                 s.thread_base.push(inherited);
                 s.thread_first.push(None);
                 s.thread_acc.push(inherited);
+                // the fork happens while the JUMPI executes, i.e. before it is charged
+                let op_inherited = s.thread_opgas.get(parent).copied().unwrap_or(0);
+                s.thread_opgas.push(op_inherited);
+                s.thread_pending.push(0);
                 *s.forks_to.entry(to).or_insert(0) += 1;
                 s.tr(|| format!("F{from}:{to}"));
             }
